@@ -5,7 +5,9 @@ set -u
 SEED=$(cd "$1" && pwd); ID=$2; TIER=${3:-quick}
 cd /verif || exit 2
 if ! git -C /repo diff --quiet; then echo "/repo working tree is not clean"; exit 2; fi
-git -C /repo apply "$SEED/patch.diff" || { echo "patch does not apply"; exit 2; }
+P="$SEED/patch.diff"
+if ! git -C /repo apply --check "$P" 2>/dev/null && [ -f "$SEED/patch-on-head.diff" ]; then P="$SEED/patch-on-head.diff"; echo "(using patch-on-head.diff)"; fi
+git -C /repo apply "$P" || { echo "patch does not apply"; exit 2; }
 trap 'git -C /repo checkout -- . ; git -C /repo clean -fdq' EXIT
 cp evidence/$ID.json /tmp/evidence.$ID.bak 2>/dev/null
 out=$(bin/check $ID $TIER 2>&1); code=$?
